@@ -242,7 +242,15 @@ def terminate_all(ctx):
                 sends_first = any(aw.callee in {r.fn_of(s).name for s in senders} and a.into_bb in b.reach_from(aw.into_bb) for aw in awaits(b)) or \
                     any(tyname(sc[2]) == "TerminationMessage" and is_awaited(b, sc[0]) and a.into_bb in b.reach_from(sc[0]) for sc in send_calls(b))
                 argl = operand_local(a.producer[1]["args"][0]) if a.producer[1]["args"] else None
-                if argl is not None and re.search(r"Vec<async_std::task::JoinHandle<\(\)>>", b.locals[argl]["ty"]):
+                # the join handles: a vector of them, or the `join_handle` of every stored handle set (`handles.values_mut().map(|h| &mut h.join_handle)`)
+                def is_join_field(a_):
+                    if a_[0] != "field" or a_[1] not in f.adts:
+                        return False
+                    return any(fd["name"] == a_[2] and "JoinHandle<" in fd["ty"] for v_ in f.adts[a_[1]]["variants"] for fd in v_["fields"])
+                over_handles = argl is not None and any(is_join_field(a_) for a_ in at) and \
+                    any(c.endswith("::values_mut") or c.endswith("::values") or c.endswith("::into_values") or c.endswith("::drain") for c in atom_callres(at)) and \
+                    not [c for c in atom_callres(at) if re.search(RESTRICTING, c)]
+                if argl is not None and (re.search(r"Vec<async_std::task::JoinHandle<\(\)>>", b.locals[argl]["ty"]) or over_handles):
                     joined = True
                     ctx.check(sends_first, f"{short(b.name)}/join-after-terminate", [site(b, a.into_bb)], "the actors are joined before (or without) being told to terminate: shutdown hangs")
     ctx.check(joined, "join-all", [], "shutdown does not await the actors' join handles: zinoma can exit while processes are still being killed")
@@ -250,6 +258,11 @@ def terminate_all(ctx):
     for (L, bb, t) in r.launch_sites():
         fl = L.prov.flows_forward(t["dest"]["local"])
         pushed = [x for x, tt in L.calls() if re.search(r"Vec::<.*JoinHandle<\(\)>.*>::push$", callee_decl(tt)) and len(tt["args"]) > 1 and operand_local(tt["args"][1]) in fl]
+        # ... or into the handle set that the registry keeps (insert / entry API on the map of handle sets)
+        hs_has_join = any("JoinHandle<" in fd["ty"] for ap_, ad_ in f.adts.items() if path_ends(ap_, "TargetActorHandleSet") for v_ in ad_["variants"] for fd in v_["fields"])
+        if hs_has_join:
+            pushed += [x for x, tt in L.calls() if re.search(r"(HashMap::<.*TargetActorHandleSet.*>::insert|VacantEntry::<.*TargetActorHandleSet.*>::insert|Entry::<.*TargetActorHandleSet.*>::or_insert\w*)$", callee_decl(tt))
+                       and any(operand_local(a_) in fl for a_ in tt["args"][1:])]
         ctx.check(bool(pushed), f"{short(L.name)}/join-handle-stored@{short(callee_base(t))}", [site(L, x) for x in pushed] or [site(L, bb)], "the join handle of a launched actor is not stored: shutdown would not wait for it")
 
 
@@ -595,7 +608,7 @@ def preemptible_build(ctx):
             arms_t = arm_by_payload(a, lambda p: "TerminationMessage" in p)
             same = any(x.switch_bb == y.switch_bb for x in build_result_arms(a) for y in arms_t)
             ctx.check(same, f"{r.actor_label(a)}/raced-with-termination", [a.loc()], "the build result is not selected together with the termination receiver")
-    ctx.need(n >= 2, "build future creation sites in the build actor")
+    ctx.need(n >= 1, "build future creation sites in the build actor")   # (the script future itself may be created lazily, by a factory handed to the runner)
 
 
 @rule("C10.SIGNAL-WIRED", ["C10"], """a task awaits the termination signal (CtrlC) and then sends the termination message; both relays leave their loop on that message""", "K1", floor=3)
@@ -1135,7 +1148,8 @@ def relay_owns_receiver(ctx):
                 cn = callee_base(ct)
                 if cn in f.bodies and relays & f.cg.reach([cn], cross_spawn=False):
                     for a in ct["args"]:
-                        if a["k"] == "move" and a["place"]["local"] in fl and "Receiver" in ma.locals[a["place"]["local"]]["ty"]:
+                        # the handle itself changes hands (a `&mut Receiver` lent to the engine leaves the owner - and the open channel - in main)
+                        if a["k"] == "move" and a["place"]["local"] in fl and re.match(r"async_std::channel::Receiver<", ma.locals[a["place"]["local"]]["ty"]):
                             moved = True
             ctx.check((moved or stored_ok) and all(ok for _, _, ok in clones), "main/receiver-moved-into-engine", [site(ma, bb)], "the receiver of the actor-output channel is not handed over (moved) to the engine")
     else:
